@@ -52,7 +52,10 @@ def body_delays(S, loop, part):
     fired = []                # (name, tok, time)
     model = {}                # name -> dict(due, tok, act, ms2)
     exp = []
-    act0 = part["cb_action"] if "cb_action" in part else S.choice("cb_action", 4)         # what the callback of the FIRST add does: 0 nothing, 1 re-add self, 2 remove other, 3 clear
+    # what the callback of the FIRST add does: 0 nothing, 1 re-add self, 2 remove other, 3 clear,
+    # 4 check(own name), 5 add_if_doesnt_exist(own name), 6 run_now(own name) -- from inside the firing delay's own callback
+    act0 = part["cb_action"] if "cb_action" in part else S.choice("cb_action", 7)
+    inside = []
     ms2 = S.real("ms_readd", 1, 3000)
     readd_done = [False]
 
@@ -67,13 +70,23 @@ def body_delays(S, loop, part):
                     dm.remove(NAMES[1 - NAMES.index(name)])
                 elif act0 == 3:
                     dm.clear()
+                elif act0 == 4:
+                    inside.append(("check", bool(dm.check(name))))
+                elif act0 == 5:
+                    readd_done[0] = True
+                    dm.add_if_doesnt_exist(ms2, mk_cb(name, 99), name, tok=99)
+                elif act0 == 6:
+                    readd_done[0] = True
+                    n0 = len(fired)
+                    dm.run_now(name)
+                    inside.append(("run_now", len(fired) - n0))
         return cb
 
     def model_fire(name, at):
         ent = model.pop(name)
         exp.append((name, ent["tok"], at))
         if ent["idx"] == 0 and not ent.get("spent"):
-            if act0 == 1 and not model_readd[0]:
+            if act0 in (1, 5) and not model_readd[0]:
                 model_readd[0] = True
                 model[name] = dict(due=at + ms2 / 1000.0, tok=99, idx=99)
             elif act0 == 2:
@@ -143,6 +156,11 @@ def body_delays(S, loop, part):
         advance_model(loop.time())
     except Tie:
         S.assume(False)
+    for what, val in inside:
+        if what == "check" and val:
+            raise Violation("check-is-truthful", "_process_delay_callback", "check(own name) inside the callback of the delay that is firing says it is still pending")
+        if what == "run_now" and val:
+            raise Violation("delay-fires-exactly-once-or-never", "run_now", "run_now(own name) from inside the firing delay's callback ran the callback %d more time(s)" % val)
     fs = sorted(fired, key=lambda x: x[2])
     es = sorted(exp, key=lambda x: x[2])
     if len(fs) != len(es):
@@ -383,13 +401,16 @@ def scenarios(tier):
     if tier == "quick":
         # names and the first callback's action rotate deterministically over the partitions (symbolic in thorough)
         pats = [[0, 0, 0], [0, 1, 0], [0, 0, 1], [0, 1, 1]]
-        parts = [dict(kinds=s, cb_action=i % 4, names=pats[(i // 4 + i) % 4]) for i, s in enumerate(seqs)]
+        parts = [dict(kinds=s, cb_action=i % 7, names=pats[(i // 4 + i) % 4]) for i, s in enumerate(seqs)]
+        parts += [dict(kinds=["add", "add"], cb_action=a, names=[0, 1]) for a in (4, 5, 6)]
     else:
         parts = [dict(kinds=s) for s in seqs]
     per = [dict(mode="run", ticks=4 if tier == "quick" else 8), dict(mode="cancel", ticks=3 if tier == "quick" else 6)]
     pb = 70 if tier == "quick" else 200
     if tier == "quick":
         tparts = [dict(ops=["start", a, b], n=3) for a in ("wait", "pause", "add") for b in ("stop", "mode_stop", "wait", "start")]
+        # value changes on a timer that is not running (never started / stopped / paused) must not make it tick
+        tparts += [dict(ops=["jump", "wait"], n=3), dict(ops=["start", "stop", "jump", "wait"], n=4), dict(ops=["start", "pause", "jump"], n=4)]
     else:
         tparts = [dict(ops=["start", a], n=4, restart_on_complete=r) for a in TOPS for r in (False, True)]
     return [Scenario("timer", setup_timer, body_timer, tparts, teardown=teardown_timer, part_budget=pb, per_path_timeout=30),
